@@ -114,6 +114,14 @@ class FlowMixin:
                         return base[key]
                 raise Unsupported("dictionary indexed by a symbolic string that the path does not pin (line %d)" % n.lineno)
             return super().e_Subscript(ast.Subscript(value=_Lit(base), slice=_Lit(k), ctx=n.ctx, lineno=n.lineno, col_offset=0), st)
+        if isinstance(base, (LArr, SArr)) and len(shape_of(base)) == 1 and isinstance(n.slice, ast.Slice) and n.slice.lower is None \
+                and n.slice.upper is None and n.slice.step is not None:
+            stp = self.eval(n.slice.step, st)
+            if isinstance(stp, int) and stp == -1:
+                # a[::-1]: the reversed view
+                src = base
+                nn = shape_of(base)[0]
+                return LArr(dtype_of(base), [nn], lambda ix, st2, src=src, nn=nn: elem(src, [zi(nn) - 1 - zi(ix[0])], st2), None, "reversed")
         if isinstance(base, LArr) and getattr(base, "perm", None) is not None:
             idx = self.index_list(n.slice, st)
             if len(idx) == len(base.shape) and any(isinstance(i, (LArr, SArr)) for i in idx):
@@ -194,6 +202,29 @@ class FlowMixin:
                 cache[key] = r
             return cache[key]
         raise Unsupported("np.%s form (line %d)" % (tag, n.lineno))
+
+    def b_numpy_argmax(self, args, kw, st, n):
+        a = args[0]
+        if isinstance(a, LArr) and a.dt == "b" and len(a.shape) == 1 and kw.get("axis") is None and len(args) == 1:
+            # assumed contract of np.argmax on a boolean vector: the index of the first True, 0 when there is none
+            src = frozen(a, st)
+            nn = zi(a.shape[0])
+            r = fresh_int("argmax")
+            i = z3.Int(fresh_name("am"))
+            at = lambda t: zb(as_bool(elem(src, [t], st)))
+            wm = self.opt("witness_marks", False)
+            pats = [self.witness_mark(i)] if wm else []
+            none = z3.ForAll([i], z3.Implies(z3.And(i >= 0, i < nn), z3.Not(at(i))), patterns=pats) if pats else \
+                z3.ForAll([i], z3.Implies(z3.And(i >= 0, i < nn), z3.Not(at(i))))
+            before = z3.ForAll([i], z3.Implies(z3.And(i >= 0, i < r), z3.Not(at(i))), patterns=pats) if pats else \
+                z3.ForAll([i], z3.Implies(z3.And(i >= 0, i < r), z3.Not(at(i))))
+            if not self.spec:
+                self.emit(st, "pre@call", "argmax.L%d" % n.lineno, simp_bool(nn >= 1), n, "np.argmax of a non-empty vector")
+            st.assume(z3.And(r >= 0, r < nn, before, z3.Or(at(r), z3.And(none, r == 0))))
+            if wm:
+                st.assume(self.witness_mark(r))
+            return r
+        return super().b_numpy_argmax(args, kw, st, n)
 
     def b_numpy_amin(self, args, kw, st, n):
         return self._whole_reduction("amin", args, kw, st, n)
